@@ -95,6 +95,8 @@ DEFAULT_PROFILE = {
     "index_alias_calls": 0,    # percent: call passes k and a(..k..) together
     "ensure": None,            # intrinsic name that must occur (s_ensure)
     "scalar_loopvar": 0,       # percent: a DO uses the visible local `it`
+    "carried_loopvar": 0,      # percent of twins: first loop READS `it`, the
+                               # twin re-uses `it` as index of an inner loop
     "exit_with_print": 0,      # percent: EXIT/CYCLE preceded by a PRINT
     "array_only_loops": 0,     # percent: loop body = array-element writes
 }
@@ -1137,7 +1139,32 @@ class Gen:
         var.role = "loop"
         self.loop_stack.append(var)
         self.loop_kinds.append("do")
-        if self.free_loopvars and self.depth < self.prof["max_depth"] - 1 \
+        carried_plan = False
+        if self.prof.get("carried_loopvar", 0) and \
+                not getattr(self, "_in_twin", False) and \
+                self.int(1, 100) <= self.prof["carried_loopvar"]:
+            cand = self.vars.get("it")
+            carried_plan = cand is not None and cand.role == "local" and \
+                cand not in self.loop_stack and not self.in_helper
+        if getattr(self, "_force_inner_scalar", False) or carried_plan:
+            # directed pair: the first loop only READS the visible scalar
+            # `it`, its twin re-uses `it` as index of an inner loop. Bodies
+            # assign array elements only (so that the loops are accepted).
+            saved_kinds = self.prof["kinds"]
+            self.prof["kinds"] = {k: 0 for k in saved_kinds}
+            self.prof["kinds"].update({"assign_elem": 3})
+            try:
+                if carried_plan:
+                    body = self.block(1, 2)
+                else:
+                    self._force_inner_scalar = False
+                    self.depth += 1
+                    body = ["  " + ln
+                            for ln in self._s_do_scalar(self.vars["it"])]
+                    self.depth -= 1
+            finally:
+                self.prof["kinds"] = saved_kinds
+        elif self.free_loopvars and self.depth < self.prof["max_depth"] - 1 \
                 and self.int(1, 100) <= self.prof["perfect_nest"]:
             self.depth += 1
             self.budget -= 1
@@ -1157,6 +1184,19 @@ class Gen:
             self.features.add("array_only_loop")
         else:
             body = self.block(1, 3)
+        want_twin = self.int(1, 100) <= self.prof["twin_loops"] and \
+            not getattr(self, "_in_twin", False)
+        carried = False
+        if carried_plan:
+            target = [arr for arr in self.arrays("real", writable=True,
+                                                 rank=1)
+                      if rng[0] >= arr.dims[0][0] and
+                      rng[1] <= arr.dims[0][1]]
+            if target:
+                carried = want_twin = True
+                body.append(f"  {self.pick(target).name}({var.name}) = "
+                            f"real(it)")
+                self.features.add("carried_loopvar")
         self.loop_kinds.pop()
         self.loop_stack.pop()
         var.rng = None
@@ -1168,9 +1208,9 @@ class Gen:
         if len(self.loop_stack) >= 1:
             self.features.add("nested_loop")
         lines = [head] + body + ["end do"]
-        if self.int(1, 100) <= self.prof["twin_loops"] and \
-                not getattr(self, "_in_twin", False):
+        if want_twin:
             self._in_twin = True
+            self._force_inner_scalar = carried
             self.features.add("twin_loops")
             if self.int(1, 100) > self.prof["same_var_twin"] and \
                     len(self.free_loopvars) > 1:
